@@ -31,7 +31,7 @@ ASSUMPTIONS = [
 ]
 N = {"quick": 2500, "thorough": 40000}  # trees per shard
 NSHARDS = 16
-ROUTES = ("E1", "E2", "E2s", "E2b")
+ROUTES = ("E1", "E2", "E2s", "E2b", "E2r", "E2rb")  # E2r*: nodes made with the node constructor, then simplified
 
 
 def shards(tier, seed):
@@ -69,10 +69,10 @@ def eval_routes(t, envs, cx, routes=ROUTES):
             return fails, ["domain"]
         for route in routes:
             try:
-                e = R.build(t)
-                if route == "E2s":
+                e = R.build(t, raw=route in ("E2r", "E2rb"))
+                if route in ("E2s", "E2r"):
                     e = e.simplify()
-                elif route == "E2b":
+                elif route in ("E2b", "E2rb"):
                     e = e.simplify(bitslice=True)
             except Exception as x:
                 fails.append((route, exc_key(x), "%s: %r" % (route, x)))
